@@ -242,7 +242,7 @@ def function_value(e):
     return None
 
 
-def _expr_helper(fn):
+def _expr_helper(fn, fold=True):
     """lambda for `def f(p..): [docstring] return e`, for generator helpers made of for / if nests around yields, and
     for first-match search loops; None otherwise"""
     a = fn.args
@@ -270,6 +270,20 @@ def _expr_helper(fn):
                 or len(body) != 2 or not isinstance(body[1], ast.Return):
             break
         body = [_Subst({nm: val}).visit(copy.deepcopy(body[1]))]
+    # if c: return a / [if d: return b /] return z   ->   return a if c else (b if d else z)
+    if fold and len(body) >= 2 and isinstance(body[-1], ast.Return) and body[-1].value is not None and all(
+            isinstance(st, ast.If) and not st.orelse and len(st.body) == 1 and isinstance(st.body[0], ast.Return)
+            and st.body[0].value is not None for st in body[:-1]):
+        e = copy.deepcopy(body[-1].value)
+        for st in reversed(body[:-1]):
+            e = ast.IfExp(test=copy.deepcopy(st.test), body=copy.deepcopy(st.body[0].value), orelse=e)
+        body = [ast.Return(value=e)]
+    # a closure factory:  def g(v): return e / return g   ->   return lambda v: e
+    if len(body) == 2 and isinstance(body[0], ast.FunctionDef) and isinstance(body[1], ast.Return) \
+            and isinstance(body[1].value, ast.Name) and body[1].value.id == body[0].name:
+        inner = _expr_helper(body[0])
+        if inner is not None:
+            body = [ast.Return(value=inner)]
     if len(body) == 1 and isinstance(body[0], ast.Return) and body[0].value is not None:
         if any(isinstance(n, (ast.Yield, ast.YieldFrom, ast.Await)) for n in ast.walk(body[0].value)):
             return None
@@ -928,7 +942,9 @@ class _MethodInline(ast.NodeTransformer):
             return node                       # Cls.method(obj, ..): left alone
         bare = copy.deepcopy(m)
         bare.decorator_list = []
-        lam = _expr_helper(bare)
+        # a method that decides by early returns stays a method: the rules' path-splitting evaluators read its
+        # statements, a conditional expression in the middle of the caller would hide them
+        lam = _expr_helper(bare, fold=False)
         if lam is None:
             return node
         args = list(node.args)
